@@ -49,20 +49,24 @@ package rrc
 //@ define KEPT(k) (old(hasKey(m.paths, k)) && m.paths[k] == old(m.paths[k]))
 
 //@ func Manager.pathLocked
-//@ inline
 //@ watch pathKey time.Time.Before
 //@ requires inv: INV(m)
 //@ ensures inv: INV(m)
 //@ ensures non-nil: result != nil
 //@ ensures map-made: m.paths != nil
 //@ ensures installed: hasKey(m.paths, KEY()) && m.paths[KEY()] == result
-//@ ensures fresh-or-kept: (result.sentBytes == 0 && result.receivedBytes == 0 && !result.challengePending && !old(hasKey(m.paths, KEY()) && m.paths[KEY()] == result))
-//@    || (old(hasKey(m.paths, KEY()) && m.paths[KEY()] == result) && result.sentBytes == old(result.sentBytes) && result.receivedBytes == old(result.receivedBytes) && result.challengePending == old(result.challengePending))
+//@ ensures fresh-or-kept: (fresh(result) && result.sentBytes == 0 && result.receivedBytes == 0 && !result.challengePending)
+//@    || (old(allocated(result)) && result.sentBytes == old(result.sentBytes) && result.receivedBytes == old(result.receivedBytes)
+//@        && result.challengePending == old(result.challengePending) && result.cookie == old(result.cookie))
+//@ ensures kept-was-stored: old(allocated(result)) ==> old(hasKey(m.paths, KEY()) && m.paths[KEY()] == result)
 //@ ensures budget-established: BUDGET(result)
-//@ ensures others-kept: forallKey(m.paths, func(k string) bool { return k != KEY() ==> KEPT(k) })
+//@ ensures others-kept: forallKey(m.paths, func(k string) bool { return KEPT(k) || m.paths[k] == result })
+//@ ensures only-one-new: forallKey(m.paths, func(k string) bool { return k != KEY() ==> KEPT(k) })
 //@ ensures counters-kept: forallKey(m.paths, func(k string) bool { return KEPT(k) ==>
-//@    m.paths[k].sentBytes == old(m.paths[k].sentBytes) && m.paths[k].receivedBytes == old(m.paths[k].receivedBytes) })
+//@    m.paths[k].sentBytes == old(m.paths[k].sentBytes) && m.paths[k].receivedBytes == old(m.paths[k].receivedBytes)
+//@    && m.paths[k].challengePending == old(m.paths[k].challengePending) && m.paths[k].cookie == old(m.paths[k].cookie) })
 //@ end
+
 
 //@ func Manager.recordReceived
 //@ watch sameAddress Manager.pathLocked Manager.touchLocked
@@ -89,8 +93,9 @@ package rrc
 //@ ensures challenge-recorded: result1 ==> PL() != nil && PL().challengePending && PL().cookie == result0
 //@ ensures fresh-cookie: result1 ==> called("rand.Read") && retErr("rand.Read", 1) == nil
 //@ ensures one-challenge-at-a-time: result1 ==> forallKey(m.paths, func(k string) bool { return KEPT(k) && m.paths[k] == PL() ==> !old(m.paths[k].challengePending) })
+//@ ensures pending-kept: forallKey(m.paths, func(k string) bool { return KEPT(k) && old(m.paths[k].challengePending) ==> m.paths[k].challengePending })
 //@ ensures pending-cookie-kept: forallKey(m.paths, func(k string) bool { return KEPT(k) && old(m.paths[k].challengePending) ==>
-//@    m.paths[k].challengePending && m.paths[k].cookie == old(m.paths[k].cookie) })
+//@    forall(0, 8, func(i int) bool { return m.paths[k].cookie[i] == old(m.paths[k].cookie[i]) }) })
 //@ ensures counters-unchanged: forallKey(m.paths, func(k string) bool { return KEPT(k) ==>
 //@    m.paths[k].sentBytes == old(m.paths[k].sentBytes) && m.paths[k].receivedBytes == old(m.paths[k].receivedBytes) })
 //@ ensures unlocked: !held("Manager.mu")
@@ -149,13 +154,4 @@ package rrc
 //@ ensures marked-after: marked
 //@ ensures counts-wire-bytes: !old(marked) ==> argInt("Manager.recordReceived", 3) == wireBytes
 //@ ensures counts-after-marker: !old(marked) ==> calledBefore("marker", "Manager.recordReceived")
-//@ end
-
-//@ func Manager.pathLocked
-//@ ensures dbg1: fresh(result) || old(allocated(result))
-//@ ensures dbg2: forallKey(m.paths, func(k string) bool { return KEPT(k) ==> old(allocated(m.paths[k])) })
-//@ ensures dbg3: forallKey(m.paths, func(k string) bool { return KEPT(k) && !fresh(result) ==> m.paths[k].sentBytes == old(m.paths[k].sentBytes) })
-//@ ensures dbg4: forallKey(m.paths, func(k string) bool { return KEPT(k) && fresh(result) ==> m.paths[k] != result })
-//@ ensures dbg5: forallKey(m.paths, func(k string) bool { return KEPT(k) && fresh(result) ==> m.paths[k].sentBytes == old(m.paths[k].sentBytes) })
-//@ ensures dbg6: fresh(result) ==> !old(allocated(result))
 //@ end
